@@ -60,7 +60,15 @@ var (
 	allTLDs     = append(genericTLDs, ccTLDs...)
 )
 
+// minEmailLength is the length of the shortest value that can look like an e-mail at all: "a@b.cd".
+const minEmailLength = len("a@b.cd")
+
 func randomEmail(buf []byte) error {
+	// A value shorter than the shortest possible e-mail cannot be replaced by anything e-mail-shaped
+	// (and there would be no room for '@' and a TLD): keep the length and generate a random string.
+	if len(buf) < minEmailLength {
+		return randomString(buf)
+	}
 	// If the buffer is really short, choose only among 2-letter country TLDs so that we have some space for other parts.
 	tlds := allTLDs
 	if len(buf) < len("a@b.cdef") {
